@@ -108,6 +108,35 @@ CHECKS = {
                 "replacement moves the balance by the difference; refunds only at 100-confirmation completion. non-trivial = history with receipts and ledger checks.",
         "assumptions": E1_ASSUME,
     },
+    "C10": {
+        "engines": lambda tier: [{"engine": "e2", "shards": 16, "args": {"schedules": 3000 if tier == "thorough" else 150, "free": 150 if tier == "thorough" else 10}}],
+        "level": "exploration",
+        "rule": "case = one execution of a scenario: a tower prepared by a model-checked sequential setup, then 2-3 real OS threads (chain thread delivering one "
+                "poll = 1 block, or a disconnection + 2 blocks; one or two API threads with register / add (new, same twice, update, late) / get_appointment / "
+                "get_subscription_info) under the serialising PCT scheduler (every hooked lock acquisition/release/condvar wait is a scheduling point; 0-3 "
+                "priority change points) or free-running with seeded delays. Oracle: (replies with all fields, final users/appointments/trackers rows, multiset "
+                "of broadcasts) must equal the outcome of SOME sequential interleaving of the same operations (block events atomic), the sequential outcomes "
+                "being produced by scripted schedules on identical towers. non-trivial = execution with >= 1 context switch between threads; distinct = "
+                "distinct (scenario, schedule decision string).",
+        "assumptions": [
+            "interleavings finer than lock granularity (atomics, inside sqlite) are not controlled by the serial scheduler (the free-running mode samples them)",
+            "at most 3 threads; schedules are sampled (PCT), not enumerated; reorg scenarios disconnect one block",
+            "the height kept for an unconfirmed penalty (InMempoolSince) is internal bookkeeping and not part of the compared outcome",
+        ],
+    },
+    "C11": {
+        "engines": lambda tier: [{"engine": "e2", "shards": 16, "args": {"schedules": 3000 if tier == "thorough" else 150, "free": 150 if tier == "thorough" else 10}},
+                                 {"engine": "e1", "shards": 16, "args": {"bias": "mixed", "cases": 1500 if tier == "thorough" else 80}},
+                                 {"engine": "e1", "shards": 16, "args": {"bias": "chain", "cases": 800 if tier == "thorough" else 40}}],
+        "level": "exploration",
+        "rule": "three monitors over two engines. (1) E2 scheduler: in every scheduled / free-running execution of the C10 scenarios the observer mediates every "
+                "tower lock; a state in which no tower thread is enabled (circular wait over lock owners, or everybody waiting) is detected deterministically and "
+                "reported with holders/waiters. (2) lock-order graph over everything executed; inversions are listed as predictions, only manifested circular "
+                "waits are verdicts. (3) panic hook: any panic raised in tower code in any E2 execution or E1 history (incl. resubmission of appointments in "
+                "every lifecycle state, reorgs, purges, node verdict scripts), plus a liveness probe (one more block + one request) after every E1 history. "
+                "non-trivial = E2 execution with a context switch / E1 history with submissions in several lifecycle states.",
+        "assumptions": E1_ASSUME[:4] + ["schedules are sampled, not enumerated; at most 3 threads", "stuck states caused by a bitcoind outage are C12's business"],
+    },
     "C17": {
         "engines": _c17,
         "level": "exploration",
